@@ -6,6 +6,7 @@
 (* distinct elements occupy distinct bytes; the imap/segment enumeration has no duplicates. *)
 From Coq Require Import ZArith List.
 From Pnc Require Import Proofs_Access.
+From Pnc Require Import Proofs_RoundTrip.
 Set Printing Width 100.
 Set Printing Depth 100000.
 
@@ -75,6 +76,8 @@ Theorem C01_offsets_length :
 Proof. exact @model_offsets_length. Qed.
 Print Assumptions C01_offsets_length.
 
+(* disk level: what a put stores is what any later get of those elements returns; nothing else changes; the *)
+(* result does not depend on the order or on how the (offset, element) pairs are split among writers *)
 Theorem C01_old_stride_flatten_refuted :
   exists (g : Access.geom) (start count stride : list Z),
            wf_geom g /\
@@ -82,3 +85,143 @@ Theorem C01_old_stride_flatten_refuted :
            model_offsets_old g start count (Some stride) <> Access.spec_offsets g start count stride.
 Proof. exact @model_offsets_old_refuted. Qed.
 Print Assumptions C01_old_stride_flatten_refuted.
+
+Theorem C01_gather_scatter :
+  forall (d : Disk.disk) (xsz : Z) (offs : list Z) (bs : list Base.byte),
+         elems_disjoint xsz offs ->
+         Base.Zlen bs = (xsz * Base.Zlen offs)%Z ->
+         Disk.dk_gather (Disk.dk_scatter d xsz offs bs) xsz offs = bs.
+Proof. exact @gather_scatter. Qed.
+Print Assumptions C01_gather_scatter.
+
+Theorem C01_gather_after_scatter :
+  forall (d : Disk.disk) (xsz : Z) (offs : list Z) (bs : list Base.byte) 
+           (offs' : list Z) (k' : Z),
+         elems_disjoint xsz offs ->
+         Base.Zlen bs = (xsz * Base.Zlen offs)%Z ->
+         (0 <= k' < Base.Zlen offs')%Z ->
+         let got := Disk.dk_gather (Disk.dk_scatter d xsz offs bs) xsz offs' in
+         (forall k : Z,
+          (0 <= k < Base.Zlen offs)%Z ->
+          Base.znth offs' k' 0%Z = Base.znth offs k 0%Z ->
+          stream_elem xsz got k' = stream_elem xsz bs k) /\
+         ((forall o : Z, In o offs -> apart xsz o (Base.znth offs' k' 0%Z)) ->
+          stream_elem xsz got k' = Disk.dk_read d (Base.znth offs' k' 0%Z) xsz).
+Proof. exact @gather_after_scatter. Qed.
+Print Assumptions C01_gather_after_scatter.
+
+Theorem C01_scatter_frame :
+  forall (offs : list Z) (d : Disk.disk) (xsz : Z) (bs : list Base.byte) (x : Z),
+         (forall o : Z, In o offs -> ~ in_elem xsz o x) ->
+         Disk.dk_get (Disk.dk_scatter d xsz offs bs) x = Disk.dk_get d x.
+Proof. exact @scatter_get_out. Qed.
+Print Assumptions C01_scatter_frame.
+
+Theorem C01_scatter_perm :
+  forall (d : Disk.disk) (xsz : Z) (offs : list Z) (elems : list (list Base.byte))
+           (offs2 : list Z) (elems2 : list (list Base.byte)),
+         elems_disjoint xsz offs ->
+         length elems = length offs ->
+         length elems2 = length offs2 ->
+         Forall (fun e : list Base.byte => Base.Zlen e = xsz) elems ->
+         Permutation.Permutation (combine offs elems) (combine offs2 elems2) ->
+         disk_eq (Disk.dk_scatter d xsz offs (concat elems))
+           (Disk.dk_scatter d xsz offs2 (concat elems2)).
+Proof. exact @scatter_perm. Qed.
+Print Assumptions C01_scatter_perm.
+
+Theorem C01_decomposition_irrelevant :
+  forall (d : Disk.disk) (xsz : Z) (offs : list Z) (elems : list (list Base.byte))
+           (shares : list (list (Z * list Base.byte))),
+         elems_disjoint xsz offs ->
+         length elems = length offs ->
+         Forall (fun e : list Base.byte => Base.Zlen e = xsz) elems ->
+         Permutation.Permutation (concat shares) (combine offs elems) ->
+         disk_eq (apply_shares shares d) (Disk.dk_scatter d xsz offs (concat elems)).
+Proof. exact @decomposition_irrelevant. Qed.
+Print Assumptions C01_decomposition_irrelevant.
+
+Theorem C01_request_offsets_disjoint :
+  forall (g : Access.geom) (start count stride : list Z),
+         wf_geom g ->
+         rec_fits g ->
+         req_ok (Access.g_shape g) start count stride ->
+         elems_disjoint (Access.g_xsz g) (Access.model_offsets g start count (Some stride)).
+Proof. exact @request_offsets_disjoint. Qed.
+Print Assumptions C01_request_offsets_disjoint.
+
+Theorem C01_put_get_roundtrip :
+  forall (g : Access.geom) (start count stride : list Z) (d : Disk.disk) (bs : list Base.byte),
+         wf_geom g ->
+         rec_fits g ->
+         req_ok (Access.g_shape g) start count stride ->
+         Base.Zlen bs = (Access.g_xsz g * Base.zprod count)%Z ->
+         let offs := Access.model_offsets g start count (Some stride) in
+         Disk.dk_gather (Disk.dk_scatter d (Access.g_xsz g) offs bs) (Access.g_xsz g) offs = bs.
+Proof. exact @put_get_roundtrip. Qed.
+Print Assumptions C01_put_get_roundtrip.
+
+Theorem C01_get_other_request :
+  forall (g : Access.geom) (st cn sd st' cn' sd' : list Z) (d : Disk.disk)
+           (bs : list Base.byte) (k' : Z),
+         wf_geom g ->
+         rec_fits g ->
+         req_ok (Access.g_shape g) st cn sd ->
+         req_ok (Access.g_shape g) st' cn' sd' ->
+         Base.Zlen bs = (Access.g_xsz g * Base.zprod cn)%Z ->
+         (0 <= k' < Base.zprod cn')%Z ->
+         let D := Disk.dk_scatter d (Access.g_xsz g) (Access.model_offsets g st cn (Some sd)) bs in
+         let got := Disk.dk_gather D (Access.g_xsz g) (Access.model_offsets g st' cn' (Some sd')) in
+         let idx' := Base.znth (Access.req_indices st' cn' sd') k' nil in
+         (forall k : Z,
+          (0 <= k < Base.zprod cn)%Z ->
+          Base.znth (Access.req_indices st cn sd) k nil = idx' ->
+          stream_elem (Access.g_xsz g) got k' = stream_elem (Access.g_xsz g) bs k) /\
+         (~ In idx' (Access.req_indices st cn sd) ->
+          stream_elem (Access.g_xsz g) got k' =
+          Disk.dk_read d (Access.elem_off g idx') (Access.g_xsz g)).
+Proof. exact @get_other_request. Qed.
+Print Assumptions C01_get_other_request.
+
+Theorem C01_put_frame :
+  forall (g : Access.geom) (start count stride : list Z) (d : Disk.disk) 
+           (bs : list Base.byte) (x : Z),
+         wf_geom g ->
+         req_ok (Access.g_shape g) start count stride ->
+         (forall idx : list Z,
+          In idx (Access.req_indices start count stride) ->
+          ~ in_elem (Access.g_xsz g) (Access.elem_off g idx) x) ->
+         Disk.dk_get
+           (Disk.dk_scatter d (Access.g_xsz g) (Access.model_offsets g start count (Some stride)) bs)
+           x = Disk.dk_get d x.
+Proof. exact @put_frame. Qed.
+Print Assumptions C01_put_frame.
+
+Theorem C01_two_vars_disjoint :
+  forall (g1 : Access.geom) (st1 cn1 sd1 : list Z) (bs1 : list Base.byte) 
+           (g2 : Access.geom) (st2 cn2 sd2 : list Z) (bs2 : list Base.byte) 
+           (d : Disk.disk),
+         wf_geom g1 ->
+         rec_fits g1 ->
+         req_ok (Access.g_shape g1) st1 cn1 sd1 ->
+         Base.Zlen bs1 = (Access.g_xsz g1 * Base.zprod cn1)%Z ->
+         wf_geom g2 ->
+         rec_fits g2 ->
+         req_ok (Access.g_shape g2) st2 cn2 sd2 ->
+         Base.Zlen bs2 = (Access.g_xsz g2 * Base.zprod cn2)%Z ->
+         regions_disjoint g1 g2 ->
+         let offs1 := Access.model_offsets g1 st1 cn1 (Some sd1) in
+         let offs2 := Access.model_offsets g2 st2 cn2 (Some sd2) in
+         let D :=
+           Disk.dk_scatter (Disk.dk_scatter d (Access.g_xsz g1) offs1 bs1) 
+             (Access.g_xsz g2) offs2 bs2 in
+         Disk.dk_gather D (Access.g_xsz g1) offs1 = bs1 /\
+         Disk.dk_gather D (Access.g_xsz g2) offs2 = bs2 /\
+         (forall x : Z,
+          Disk.dk_get D x =
+          Disk.dk_get
+            (Disk.dk_scatter (Disk.dk_scatter d (Access.g_xsz g2) offs2 bs2) 
+               (Access.g_xsz g1) offs1 bs1) x) /\
+         (forall x : Z, ~ var_region g1 x -> ~ var_region g2 x -> Disk.dk_get D x = Disk.dk_get d x).
+Proof. exact @two_vars_disjoint. Qed.
+Print Assumptions C01_two_vars_disjoint.
